@@ -8,12 +8,14 @@ package main
 import (
 	"bytes"
 	"context"
+	"errors"
 	"fmt"
 	"strings"
 	"time"
 
 	"github.com/plgd-dev/go-coap/v3/message"
 	"github.com/plgd-dev/go-coap/v3/message/codes"
+	"github.com/plgd-dev/go-coap/v3/message/pool"
 
 	"verif/ev"
 	"verif/mcx"
@@ -30,10 +32,11 @@ type cfg struct {
 	NStart uint32
 	Two    bool // two concurrent confirmable requests (NSTART check)
 	Events int  // max number of non-tick events in a history
+	WriteFail bool // the first datagram write fails with a transient error (the call returns an error at once)
 }
 
 func (c cfg) String() string {
-	return fmt.Sprintf("udp-conn CON Do: ACK_TIMEOUT=%v MAX_RETRANSMIT=%d NSTART=%d requests=%d events<=%d", T, c.R, c.NStart, map[bool]int{false: 1, true: 2}[c.Two], c.Events)
+	return fmt.Sprintf("udp-conn CON Do: ACK_TIMEOUT=%v MAX_RETRANSMIT=%d NSTART=%d requests=%d events<=%d first-write-fails=%v", T, c.R, c.NStart, map[bool]int{false: 1, true: 2}[c.Two], c.Events, c.WriteFail)
 }
 
 type reqState struct {
@@ -65,6 +68,16 @@ func scenario(c cfg) *mcx.Scenario {
 			t0 := vrt.Now()
 			vrt.App("env", func() {
 				w = udpw.New(udpw.Opts{NStart: c.NStart, MaxRetransmit: c.R, AckTimeout: T, LimitTotal: 4, LimitEndpoint: 4})
+				if c.WriteFail {
+					failed := false
+					w.Sess.WriteErr = func(m *pool.Message) error {
+						if !failed && m.Code() == codes.GET {
+							failed = true
+							return errors.New("sendmsg: no buffer space available")
+						}
+						return nil
+					}
+				}
 				for i := range reqs {
 					i := i
 					ctx, cancel := context.WithCancel(context.Background())
@@ -224,7 +237,7 @@ func scenario(c cfg) *mcx.Scenario {
 				// end-of-history obligations
 				for i, r := range reqs {
 					t := txs[i]
-					if len(t.copies) == 0 && r.started && !c.Two {
+					if len(t.copies) == 0 && r.started && !c.Two && !c.WriteFail {
 						fail("never-transmitted", "request %d was never transmitted", i)
 					}
 					if r.done && r.err == nil {
@@ -271,6 +284,7 @@ func main() {
 		scs = append(scs, scenario(cfg{R: R, NStart: 1, Events: ev.Pick(r, 3, 4)}))
 	}
 	scs = append(scs, scenario(cfg{R: 4, NStart: 1, Events: 2}))
+	scs = append(scs, scenario(cfg{R: 2, NStart: 1, Events: 1, WriteFail: true}))
 	for _, ns := range []uint32{1, 2} {
 		scs = append(scs, scenario(cfg{R: 1, NStart: ns, Two: true, Events: ev.Pick(r, 2, 3)}))
 	}
